@@ -60,10 +60,14 @@ def model(arch):
             for i, f in enumerate(fs):
                 if len(f.operands) >= 1 and all(isinstance(o, RegisterOperand) for o in f.operands):
                     regforms.append((name, i))
+        # the scalar integer instructions (suffixable in AT&T syntax) are a small part of a model: drawn separately
+        regforms = (regforms, [r for r in regforms if r[0].lower() in SUFFIXABLE] or regforms)
         _M[arch] = (mm, sem, regforms, ParserX86ATT() if env.isa_of(arch) == "x86" else ParserAArch64())
     return _M[arch]
 
 
+SUFFIXABLE = {"add", "sub", "adc", "sbb", "and", "or", "xor", "cmp", "test", "imul", "shl", "shr", "sar", "not",
+              "neg", "inc", "dec", "popcnt", "lzcnt", "tzcnt", "bsf", "bsr", "mov", "xchg", "bt", "xadd", "cmpxchg"}
 X_MEM = ["(%rdx)", "16(%rdx)", "-8(%rdx)", "(%rdx,%rdi,1)", "(%rdx,%rdi,8)", "24(%rdx,%rdi,1)", "24(%rdx,%rdi,4)",
          "(,%rdi,8)", "0x40(,%rdi,2)", "(%rdx,%rdi)", "4096"]
 A_MEM = ["[x10]", "[x10, #16]", "[x10, x11]", "[x10, x11, lsl #3]", "[x10, #16]!", "[x10], #16"]
@@ -148,8 +152,10 @@ def check_case(case):
     hd = head(arch)
     plist = [str(p) for p in hd["ports"]]
     lines, meta = [], []
+    suffixed = False
     for k, v, where, shape in case["picks"]:
-        name, i = regforms[k % len(regforms)]
+        pool = regforms[1] if k % 3 == 0 else regforms[0]
+        name, i = pool[(k // 3) % len(pool)]
         f = mm._data["instruction_forms_dict"][name][i]
         try:
             text = entries.entry_text(isa, name, f.operands, v)
@@ -166,6 +172,11 @@ def check_case(case):
                 continue
         mems = X_MEM if isa == "x86" else A_MEM
         ops[pos] = mems[shape % len(mems)]
+        if isa == "x86" and mn in SUFFIXABLE and v != 1:
+            # AT&T size suffix as compilers write it for memory forms (subq, imull, testq, ...)
+            regs = [o.lstrip("%") for j, o in enumerate(ops) if j != pos and o.startswith("%")]
+            mn += "l" if any(r.startswith("e") or r.endswith("d") for r in regs) else "q"
+            suffixed = True
         lines.append(mn + " " + ", ".join(ops))
         meta.append(pos)
     if not lines:
@@ -175,7 +186,7 @@ def check_case(case):
     except Exception:
         return {"nontrivial": False, "classes": ["real:text-not-parsable"]}
     guard(sem.add_semantics, kernel, what="add_semantics(%s)" % arch)
-    cl = ["real", "real:" + arch]
+    cl = ["real", "real:" + arch] + (["real:size-suffix"] if suffixed else [])
     nt = False
     excluded = {}
     for iform, pos in zip(kernel, meta):
